@@ -115,6 +115,19 @@ var Controls = []Control{
 	{"C19", "hints emitted before descending", "hintdetail/hintdetail.go", `func getAllHintsInternal\(err error, hints \[\]string, seen map\[string\]struct\{\}\) \[\]string \{\n\tif c := errbase\.UnwrapOnce\(err\); c != nil \{\n\t\thints = getAllHintsInternal\(c, hints, seen\)\n\t\}\n(.*?)\treturn hints\n\}`, "func getAllHintsInternal(err error, hints []string, seen map[string]struct{}) []string {\n$1\tif c := errbase.UnwrapOnce(err); c != nil {\n\t\thints = getAllHintsInternal(c, hints, seen)\n\t}\n\treturn hints\n}", "R-ORDER"},
 	// C20
 	{"C20", "a part of the error is encoded", "grpc/middleware/server.go", `enc := errors\.EncodeError\(ctx, err\)`, `enc := errors.EncodeError(ctx, errors.UnwrapAll(err))`, "R-GRPC-FLOW"},
+	// round 5
+	{"C06", "carriage returns dropped by the state's Write", "errbase/format_error.go", `\tfor i, c := range b \{\n\t\tif c == '\\n' \{`, "\tfor i, c := range b {\n\t\tif c == '\\r' {\n\t\t\ts.buf.Write(b[k:i])\n\t\t\tk = i + 1\n\t\t} else if c == '\\n' {", "R-WRITE-FAITHFUL"},
+	{"C01", "carriage returns dropped by the state's Write", "errbase/format_error.go", `\tfor i, c := range b \{\n\t\tif c == '\\n' \{`, "\tfor i, c := range b {\n\t\tif c == '\\r' {\n\t\t\ts.buf.Write(b[k:i])\n\t\t\tk = i + 1\n\t\t} else if c == '\\n' {", "R-WRITE-FAITHFUL"},
+	{"C05", "payload type logged without a nil test", "errbase/decode.go", `func decodeLeaf\(ctx context\.Context, enc \*errorspb\.EncodedErrorLeaf\) error \{\n`, "func decodeLeaf(ctx context.Context, enc *errorspb.EncodedErrorLeaf) error {\n\twarningFn(ctx, \"decoding payload %q\", enc.Details.FullDetails.TypeUrl)\n", "R-PB-NILPTR"},
+	{"C08", "Is method asked only for uncomparable references", "markers/markers.go", `\t\t\tif tryDelegateToIsMethod\(c, refErr\) \{`, "\t\t\tif !isComparable && tryDelegateToIsMethod(c, refErr) {", "R-IS-METHOD"},
+	{"C09", "Formattable shortcut through the wrapped error's own Format", "errbase/format_error.go", `func \(ef \*errorFormatter\) Format\(s fmt\.State, verb rune\) \{ FormatError\(ef\.err, s, verb\) \}`, "func (ef *errorFormatter) Format(s fmt.State, verb rune) {\n\tif f, ok := ef.err.(fmt.Formatter); ok && !s.Flag('+') {\n\t\tf.Format(s, verb)\n\t\treturn\n\t}\n\tFormatError(ef.err, s, verb)\n}", "R-FMT-DELEGATE"},
+	{"C12", "masked error rendered briefly into the safe details", "barriers/barriers.go", `redact\.Sprintf\("masked error: %\+v", e\.maskedErr\)`, `redact.Sprintf("masked error: %v", e.maskedErr)`, "R-HIDE-KEEP"},
+	{"C14", "interface exemption tested on the pointer type", "errutil/as.go", `e\.Kind\(\) != reflect\.Interface`, `typ.Kind() != reflect.Interface`, "R-AS-TARGET"},
+	{"C15", "family name carried over from the previous layer", "report/report.go", `(\tfor i := len\(details\) - 1; i >= 0; i-- \{\n)(.*?)\t\tfm := "\*"\n`, "\tfm := \"*\"\n${1}${2}", "R-PER-LAYER"},
+	{"C15", "synthetic exception decided by the number of stacks", "report/report.go", `\tif len\(event\.Exception\) == 0 \{\n`, "\tif len(stacks) == 0 {\n", "R-REPORT-SHAPE"},
+	{"C20", "decoded error accepted only for a matching status code", "grpc/middleware/client.go", `\t\t\treconstituted = errors\.DecodeError\(ctx, \*t\)\n`, "\t\t\tif d := errors.DecodeError(ctx, *t); status.Code(d) == st.Code() {\n\t\t\t\treconstituted = d\n\t\t\t}\n", "R-GRPC-FLOW"},
+	{"C20", "client returns early for some status codes", "grpc/middleware/client.go", `\tst := status\.Convert\(err\)\n`, "\tst := status.Convert(err)\n\tif st.Code() == 1 {\n\t\treturn err\n\t}\n", "R-GRPC-FLOW"},
+	{"C17", "new key computed through GetTypeKey", "errbase/migrations.go", `newKey := TypeKey\(getFullTypeName\(newType\)\)`, `newKey := GetTypeKey(newType)`, "R-MIGRATION"},
 	// round 4
 	{"C04", "opaque message type altered on the way in", "errbase/decode.go", `\t\tmessageType: MessageType\(enc\.MessageType\),\n`, "\t\tmessageType: MessageType(enc.MessageType) & 1,\n", "R-OPAQUE-TRANSPORT"},
 	{"C04", "prefix sent with its redaction markers", "errutil/redactable.go", `return l\.prefix\.StripMarkers\(\), l\.SafeDetails\(\), &errorspb\.StringPayload\{Msg: string\(l\.prefix\)\}`, `return string(l.prefix), l.SafeDetails(), &errorspb.StringPayload{Msg: string(l.prefix)}`, "R-WIRE-MSG"},
